@@ -112,6 +112,19 @@ Print Assumptions C09_blob_entry_handler.
 
 (* non-vacuity: a nested index with a shared child, a blob-typed entry (9), entries in an adverse order, the index and
    the layout marker last, one blob behind a link: the import succeeds, uploads every blob, pushes children first *)
+From Coq Require Import Ascii.
+From Verif Require Import Model.C15_Ref Proofs.C15rt Proofs.C09t.
+(* "for a single image also carries a Docker-loadable manifest": the RepoTags entry is the export reference taken as a registry
+   reference, its tag set with SetTag (default "latest") and printed.  Over the reference model of C15: for EVERY canonical
+   registry reference, whatever tag and digest it carries, the entry contains no '@' (Docker loads name:tag entries only); storing
+   the tag by a field assignment, which keeps the digest, is refuted for any reference that carries one *)
+Theorem C09_docker_repo_tag_has_no_digest : forall r rc, canon_reg r rc -> alln (ne "@"%char) (repo_tag r) = true.
+Proof. exact repo_tag_no_digest. Qed.
+Print Assumptions C09_docker_repo_tag_has_no_digest.
+Theorem C09_repo_tag_keeping_digest_refuted : exists r rc, canon_reg r rc /\ alln (ne "@"%char) (repo_tag_keep r) = false.
+Proof. exact repo_tag_keep_refuted. Qed.
+Print Assumptions C09_repo_tag_keeping_digest_refuted.
+
 Example C09_nonvacuous :
   let content := fun d => match d with
                           | 10 => NIndex [(11, KMan); (12, KMan); (9, KBlob)] | 11 => NIndex [(13, KMan); (14, KMan)] | 12 => NIndex [(14, KMan); (15, KMan)]
